@@ -16,9 +16,12 @@ PLAIN_ATTRS = ['id', 'title', 'href', 'name', 'lang', 'x_y', 'onclick']
 BOOL_ATTRS = ['checked', 'disabled', 'hidden', 'selected']
 DATA_ATTRS = ['data-x', 'data-long-name']
 VALUES = ['v', '', 'a b', 'x"y', "it's", 'a<b', 'a>b', '1', 'é☃', 'k  l', ' pad ', 'a=b', 'a & b', 'x&', '"', "'\"", '<>', 'tab\there']
-CLASS_VALUES = ['k', 'k l', ' k  l ', 'A b-c', '', 'a\tb', None]
-STYLE_VALUES = ['color: red', 'color:red;float:left', ' padding-top : 5px ; ', 'display: none;;', '', 'Color: RED', 'a:b;a:c', None]
-PLAIN_TEXT = ['x', ' ', '\n', 'hello world', '  two  ', 'a > b', 'é☃', '\t', 'x\ny', '1 < 2', 'a & b', '"q"', "it's", '\n  ', '>']
+# + white space of `str.isspace()` beyond ASCII / C's isspace (U+00A0, U+3000, U+2003, U+0085, \x1c): leading, trailing, inner
+CLASS_VALUES = ['k', 'k l', ' k  l ', 'A b-c', '', 'a\tb', None, '\xa0k', 'k\u3000', 'k\xa0l', '\u2003k l\x1c', '\x85', ' \xa0 k']
+STYLE_VALUES = ['color: red', 'color:red;float:left', ' padding-top : 5px ; ', 'display: none;;', '', 'Color: RED', 'a:b;a:c', None,
+                '\xa0color: red', 'color\u3000:\u2003red', 'color: red;\x1c', 'a:\x85b\xa0;c:d', 'top: 1\xa0px']
+PLAIN_TEXT = ['x', ' ', '\n', 'hello world', '  two  ', 'a > b', 'é☃', '\t', 'x\ny', '1 < 2', 'a & b', '"q"', "it's", '\n  ', '>',
+              '\xa0', '\u3000', 'x\xa0y', '\x1c', '\x85\n', '\u2003x']
 ATOMS = ['&amp;', '&nbsp;', '&lt;', '&#65;', '&#x41;', '&#8364;', '<!--c-->', '<!-- spaced -->', '<!---->', '<!--a-b-->',
          '<!--x > y-->', '<!--multi\nline-->']
 RAW_TEXT = ['x', 'if (a<b && c) {}', 'a { color: red }', '\n  var s = "</div>";\n', '<!-- x -->', 'a &amp; b', '']
@@ -68,7 +71,11 @@ def build_block_edited(AHP, b, later):
         if keys.count(kl) > 1 or v is None or v == '' or kl in BOOLEAN or kl == 'spellcheck' or not kl.replace('-', '').isalnum():
             attrs.append((k, v))
         elif kl == 'class':
-            if v.strip() and 'zz' not in v.split():
+            # the route `zz v` + removeClass('zz') must lead to the names of `v`: not when `v` has white space other than
+            # U+0020 at an end (`str.strip()` removes it from the ends of the whole value only; behind `zz ` it stays
+            # in the name — also for a tab)
+            words = lambda s: [w for w in s.strip().split(' ') if w]
+            if v.strip() and 'zz' not in v.split() and words('zz ' + v) == ['zz'] + words(v):
                 attrs.append((k, 'zz ' + v))
                 edits.append(('class', None))
             else:
@@ -242,7 +249,8 @@ class Check(PropCheck):
                     if rng.random() < 0.5:
                         del chars[j]
                     else:
-                        chars.insert(j, rng.choice('<>&"\'=/;#! -'))
+                        # incl. white space that `\s` matches but the explicit sets of html.parser do not
+                        chars.insert(j, rng.choice('<>&"\'=/;#! -\xa0\x0b\x1c\u3000\x85'))
                     if not chars:
                         break
                 text = ''.join(chars)
